@@ -58,6 +58,10 @@ def conc(model, v):
         return ''.join(out)
     if isinstance(v, SymInt):
         r = model.eval(v.term, model_completion=True)
+        if not (z3.is_bv_value(r) or z3.is_int_value(r)):
+            r = z3.simplify(r)
+            if not (z3.is_bv_value(r) or z3.is_int_value(r)):
+                raise core.Inconclusive('cannot read integer model value %s' % r)
         return r.as_signed_long() if z3.is_bv_value(r) else r.as_long()
     if isinstance(v, SymBool):
         return z3.is_true(model.eval(v.term, model_completion=True))
@@ -206,6 +210,8 @@ class Runner:
         self.witness_every = witness_every
         self.solver_name = solver_name or 'z3-%s' % z3.get_version_string()
         self.sample_budget = 2
+        self.witness_prelude = ''       # python source run before every witness expression (helpers of the harness)
+        self.witness_setup = None       # template that defines the names the witness expressions use from the concrete inputs
 
     def explore(self, body, job_label):
         eng = E.Engine(max_paths=self.max_paths, deadline=self.deadline, float_mode=self.float_mode,
@@ -213,6 +219,7 @@ class Runner:
         self.eng = eng
         if self.r_axioms is not None:
             eng.r_axioms = self.r_axioms
+        eng.small_ints = getattr(self, 'small_ints', False)
         eng.fallback = self.float_mode == 'R'
         res = self.res
         state = {'out': None}
@@ -402,6 +409,9 @@ class Runner:
 
     def _witness(self, job_label, m, inputs, expr, symval):
         setup = '\n'.join('%s = %r' % (k, v) for k, v in inputs.items())
+        if self.witness_setup is not None:
+            setup = self.witness_setup.format(**{k: repr(v) for k, v in inputs.items()})
+        setup = self.witness_prelude + setup
         try:
             got = self.plain.eval(expr, setup)
         except core.Inconclusive as e:
@@ -411,7 +421,15 @@ class Runner:
             ok = (not got['ok']) and got['exc'] == symval[1]
             want = 'raises %s' % symval[1]
         else:
-            want_v = conc(m, symval)
+            try:
+                want_v = conc(m, symval)
+            except core.Inconclusive:
+                if self.eng.float_mode == 'R' and (self.eng.r_apps or self.eng.pw_apps):
+                    # the model leaves an application of the rounding function unevaluated: nothing concrete to compare
+                    self.res.extra['witness_values_through_float_abstraction_not_compared'] = \
+                        self.res.extra.get('witness_values_through_float_abstraction_not_compared', 0) + 1
+                    return
+                raise
             want = repr(want_v)
             if got['ok']:
                 ok = got['repr'] == want or _close(got, want_v)
